@@ -46,15 +46,43 @@ pub fn trace_take() -> Vec<(StdInstant, String)> {
     TRACE.with(|t| t.borrow_mut().as_mut().map(std::mem::take).unwrap_or_default())
 }
 
+type Trigger = (String, Box<dyn FnOnce()>);
+
+thread_local! {
+    static TRACE_TRIGGER: std::cell::RefCell<Option<Trigger>> = const { std::cell::RefCell::new(None) };
+}
+
+/// Run `action` once, synchronously, inside the task that records the next event whose text
+/// contains `pattern` (lets a harness inject an input at a precise point of an interleaving).
+pub fn trace_trigger_set(pattern: String, action: Box<dyn FnOnce()>) {
+    TRACE_TRIGGER.with(|t| *t.borrow_mut() = Some((pattern, action)));
+}
+
+/// Remove the trigger; returns its action if it has not fired.
+pub fn trace_trigger_clear() -> Option<Box<dyn FnOnce()>> {
+    TRACE_TRIGGER.with(|t| t.borrow_mut().take().map(|(_, a)| a))
+}
+
 pub fn trace(event: impl FnOnce() -> String) {
+    let mut fire: Option<Box<dyn FnOnce()>> = None;
     let recorded = TRACE.with(|t| {
         if let Some(log) = t.borrow_mut().as_mut() {
-            log.push((virtual_now().unwrap_or_else(StdInstant::now), event()));
+            let text = event();
+            TRACE_TRIGGER.with(|g| {
+                let hit = g.borrow().as_ref().map(|(p, _)| text.contains(p.as_str())).unwrap_or(false);
+                if hit {
+                    fire = g.borrow_mut().take().map(|(_, a)| a);
+                }
+            });
+            log.push((virtual_now().unwrap_or_else(StdInstant::now), text));
             true
         } else {
             false
         }
     });
+    if let Some(action) = fire {
+        action();
+    }
     if recorded {
         TRACE_NOTIFY.with(|n| {
             if let Some(n) = n.borrow().as_ref() {
